@@ -72,19 +72,28 @@ def body(run):
                         label="deviation demo: reused client handle"),
         lambda: run.tlc("Monitor", "Monitor", "Monitor_dev_keepold.cfg", expect="violation", count=False, workers=4,
                         label="deviation demo: publish queue keeps the older value"),
+        lambda: run.tlc("Monitor", "Monitor", "Monitor_dev_split.cfg", expect="violation", count=False, workers=4,
+                        label="deviation demo: value read and notification sent outside the lock"),
         lambda: exe.__setitem__(0, run.go_build("monitor")),
     )
     cases = []
     if q:
         plan = [(3, 200, 0, 20, "cb", 0), (3, 200, 25, 20, "cb", 300), (2, 100, 0, 50, "chan", 500), (3, 150, 40, 10, "chan", 200),
-                (2, 200, 400, 1, "cb", 0)]      # fast churn: many initial notifications race with a stream of writes
+                (2, 200, 400, 1, "cb", 0),      # fast churn: many initial notifications race with a stream of writes
+                # application mode: callback-backed nodes changed inside the server and announced with
+                # Server.ChangeNotification from concurrent goroutines; the callback pauses after sampling
+                (3, 300, 0, 10, "cb", 100, 1), (2, 300, 10, 10, "chan", 100, 1)]
     else:
         plan = [(3, 200, 0, 20, "cb", 0), (3, 200, 6, 20, "cb", 300), (2, 100, 0, 50, "chan", 500), (3, 150, 8, 10, "chan", 200),
                 (16, 2000, 0, 20, "cb", 0), (16, 2000, 40, 20, "cb", 100), (8, 5000, 0, 10, "chan", 0), (8, 3000, 60, 10, "cb", 50),
                 (4, 1000, 30, 100, "cb", 1000), (1, 5000, 0, 5, "cb", 0), (6, 1000, 20, 1, "chan", 100), (16, 500, 100, 50, "chan", 200),
-                (2, 200, 400, 1, "cb", 0), (1, 200, 1500, 1, "chan", 0), (3, 200, 1000, 1, "cb", 20)]
-    for i, (n, w, ch, iv, mode, pause) in enumerate(plan):
-        cases.append({"id": i + 1, "nodes": n, "writes": w, "churn": ch, "interval": iv, "mode": mode, "pause": pause, "salt": i + 1})
+                (2, 200, 400, 1, "cb", 0), (1, 200, 1500, 1, "chan", 0), (3, 200, 1000, 1, "cb", 20),
+                (3, 300, 0, 10, "cb", 100, 1), (2, 300, 10, 10, "chan", 100, 1), (8, 3000, 0, 20, "cb", 50, 1),
+                (4, 2000, 50, 5, "chan", 0, 1), (1, 5000, 0, 10, "cb", 0, 1)]
+    for i, t in enumerate(plan):
+        n, w, ch, iv, mode, pause = t[:6]
+        cases.append({"id": i + 1, "nodes": n, "writes": w, "churn": ch, "interval": iv, "mode": mode, "pause": pause,
+                      "app": t[6] if len(t) > 6 else 0, "salt": i + 1})
     results = run.go_run(exe[0], [], cases=cases, timeout=2400)
     if len(results) != len(cases):
         raise vf.Inconclusive("harness returned %d results for %d cases" % (len(results), len(cases)))
@@ -135,6 +144,7 @@ def body(run):
         "values are tagged node*1e6+counter, one writer per node; wcall/add/remove are stamped before the call, wret after, notify inside the callback, by one atomic counter",
         "drain after the last write: no notification for max(10 publishing intervals, 500 ms) (at most 15 s), then every node is read",
         "'handle not found' messages (DataChangeMessage.Error set, no node id) are counted but are not data changes",
+        "application mode: the value of a callback-backed node is changed by one goroutine per node and announced with Server.ChangeNotification from a goroutine per change; the value callback pauses up to 0.4 ms after sampling on every third call (scheduler gate through the public ValueFunc)",
         "the application consumes notifications immediately (deep channel / cheap callback): slow-consumer drops are outside the property",
     ]
 
